@@ -55,7 +55,7 @@ Fixpoint toks (lvl : nat) (e : mexpr) : list token :=
   | MOr a b => paren (Nat.ltb 0 lvl) (toks 0 a ++ TColon :: toks 1 b)
   end.
 
-(* ---- guards (the two defect classes, see Proofs.v for the refutations) ---- *)
+(* ---- guards (the defect class, see Proofs.v for the refutation) ---- *)
 (* no #n anywhere below a #( ... ) *)
 Fixpoint cell_free (e : mexpr) : bool :=
   match e with
@@ -72,23 +72,6 @@ Fixpoint no_cell_under_not (e : mexpr) : bool :=
   | MParen e => no_cell_under_not e
   end.
 
-(* first token, at intersection level, is a complement *)
-Fixpoint starts_hash (e : mexpr) : bool :=
-  match e with
-  | MLit _ _ | MParen _ => false
-  | MNot _ | MNotCell _ => true
-  | MAnd a _ => match a with MOr _ _ => false | _ => starts_hash a end
-  | MOr _ _ => false     (* parenthesised at this level *)
-  end.
-(* no right operand of a ':' starts with a complement *)
-Fixpoint no_colon_hash (e : mexpr) : bool :=
-  match e with
-  | MLit _ _ | MNotCell _ => true
-  | MAnd a b => no_colon_hash a && no_colon_hash b
-  | MOr a b => no_colon_hash a && no_colon_hash b && negb (starts_hash b)
-  | MNot e | MParen e => no_colon_hash e
-  end.
-
 Fixpoint nonzero (e : mexpr) : bool :=
   match e with
   | MLit z _ => negb (z =? 0)%Z
@@ -97,7 +80,7 @@ Fixpoint nonzero (e : mexpr) : bool :=
   | MNotCell _ => true
   end.
 
-Definition admissible (e : mexpr) : bool := no_cell_under_not e && no_colon_hash e && nonzero e.
+Definition admissible (e : mexpr) : bool := no_cell_under_not e && nonzero e.
 
 (* ================================================================== *)
 (* Written forms: "any spacing MCNP accepts".                          *)
